@@ -269,6 +269,10 @@ type ImportSpec struct {
 	Forged bool   `json:"forged,omitempty"` // the importer marks it Authenticated although nothing ran
 	Valid  []int  `json:"valid,omitempty"`  // ValidCommands carried by the entry's policy
 	Mint   bool   `json:"mint,omitempty"`   // create it with security.MintClaimSession (a startd's claim session)
+	// Client: the entry is the CLIENT-side record of a session this process established as a
+	// client of some other server (real ClientHandshake against a second server.Server, stored by
+	// storeClientSession in the process-wide cache a daemon's server side also resumes from)
+	Client bool `json:"client,omitempty"`
 }
 type ConnSpec struct {
 	Peer     string     `json:"peer"`
@@ -1012,6 +1016,47 @@ func keyBytes(kind string) ([]byte, string, bool) {
 	return nil, "", false
 }
 
+// clientSideEntry makes this process a client of another (remote) server: a real full handshake
+// whose client half stores its session in the process-wide cache. Returns the session id.
+func clientSideEntry(authn bool) (string, error) {
+	remote := server.New(&security.SecurityConfig{
+		AuthMethods: []security.AuthMethod{security.AuthClaimToBe}, CryptoMethods: []security.CryptoMethod{security.CryptoAES},
+		Authentication: security.SecurityOptional, Encryption: security.SecurityPreferred, Integrity: security.SecurityOptional,
+	})
+	remote.Handle(cmdP, func(context.Context, *server.Conn) error { return nil })
+	sc, cc := net.Pipe()
+	ctx, cancel := context.WithTimeout(bg, 10*time.Second)
+	defer cancel()
+	_ = cc.SetDeadline(time.Now().Add(10 * time.Second))
+	_ = sc.SetDeadline(time.Now().Add(10 * time.Second))
+	done := make(chan struct{})
+	go func() { defer close(done); _ = remote.ServeConn(ctx, &recConn{Conn: sc, addr: "10.7.7.7:7777"}) }()
+	st := stream.NewStream(cc)
+	const remoteAddr = "<198.51.100.9:9618>"
+	st.SetPeerAddr(remoteAddr)
+	lvl := security.SecurityNever
+	if authn {
+		lvl = security.SecurityPreferred
+	}
+	cfg := &security.SecurityConfig{
+		AuthMethods: []security.AuthMethod{security.AuthClaimToBe}, CryptoMethods: []security.CryptoMethod{security.CryptoAES},
+		Authentication: lvl, Encryption: security.SecurityPreferred, Integrity: security.SecurityOptional,
+		Command: cmdP, TrustDomain: "verif", SecurityTag: fmt.Sprintf("c05-%d", time.Now().UnixNano()),
+		// SessionCache nil: the process-wide cache, as for any daemon that does not configure one
+	}
+	neg, err := security.NewAuthenticator(cfg, st).ClientHandshake(ctx)
+	_ = cc.Close()
+	<-done
+	if err != nil {
+		return "", err
+	}
+	e, ok := security.GetSessionCache().Lookup(neg.SessionId)
+	if !ok || e.Addr() != remoteAddr {
+		return "", fmt.Errorf("the cache entry for %s is not the client-side record", neg.SessionId)
+	}
+	return neg.SessionId, nil
+}
+
 var importCounter int
 var importMu sync.Mutex
 
@@ -1035,7 +1080,14 @@ func runCase(spec *CaseSpec) (term string, checks int, fails []fail) {
 			n := importCounter
 			importMu.Unlock()
 			sid := fmt.Sprintf("verif-c05-import-%d", n)
-			if im.Mint {
+			if im.Client {
+				csid, err := clientSideEntry(im.Authn)
+				if err != nil {
+					r.fails = append(r.fails, fail{"harness-client-entry-failed", err.Error()})
+					continue
+				}
+				sid = csid
+			} else if im.Mint {
 				// a startd-style claim session, created by the library itself
 				mc, err := security.MintClaimSession(security.GetSessionCache(), security.MintClaimOptions{
 					Sinful: "<10.9.9.9:9618?sock=c05>", Birthdate: 1700000000, SequenceNum: n,
@@ -1091,7 +1143,9 @@ func runCase(spec *CaseSpec) (term string, checks int, fails []fail) {
 			usr, _ := e.Policy().EvaluateAttrString("User")
 			vc, _ := e.Policy().EvaluateAttrString("ValidCommands")
 			// possession of a claim secret is what authenticates a minted session
-			si.user, si.authReal = usr, authn && !im.Forged
+			// a client-side record says that THIS process authenticated to the other server;
+			// the server under test never authenticated anybody for it
+			si.user, si.authReal = usr, authn && !im.Forged && !im.Client
 			evs = append(evs, fmt.Sprintf("(TImport %d (Build_sentry %s %s %d %s %s))", idx, kk, core.Bool(authn), userCode(usr), zlist(parseCmds(vc)), core.Bool(si.authReal)))
 		case ev.Drop > 0:
 			if ev.Drop <= len(r.sess) {
